@@ -240,6 +240,7 @@ fn main() {
         Some("replay") => std::process::exit(cmd_replay(&args)),
         Some("export-plans") => std::process::exit(cmd_export(&args)),
         Some("abort-probe") => std::process::exit(checks::abort_probe_child()),
+        Some("unwind-probe") => std::process::exit(c09::unwind_probe_child(args.get(2).and_then(|s| s.parse().ok()).unwrap_or(0))),
         _ => {
             eprintln!("usage: mc <cmd>");
             std::process::exit(2);
